@@ -401,6 +401,86 @@ type verifC11S struct {
 	idx  int
 	keys verifC11Keys
 	wit  map[string]any
+	by   *verifC11By
+}
+
+// verifC11By is a second, independent connection of the same process (own
+// keys, own Machines). The pooled write buffers of brontide are shared by all
+// connections of a node, so what one connection does between two Flush
+// attempts of another must not disturb either stream. It has its own PRNG
+// stream (derived from seed and session index; the session's stream is not
+// consumed).
+type verifC11By struct {
+	r    *verifRng
+	a, b *Machine
+	wire bytes.Buffer
+	dead bool
+	n    int
+}
+
+func (s *verifC11S) bystanderTraffic(where string) {
+	if s.by == nil {
+		br := &verifRng{s: verifMix(s.vc.Seed ^ verifMix(verifHashStr("c11-bystander")^uint64(s.idx)*0x9e3779b97f4a7c15))}
+		by := &verifC11By{r: br}
+		s.by = by
+		k := verifC11Keys{ls: verifC11GenKey(br), le: verifC11GenKey(br), rs: verifC11GenKey(br), re: verifC11GenKey(br)}
+		by.a, by.b = verifC11NewMachines(k, k.rs.PubKey())
+		act1, err := by.a.GenActOne()
+		if err == nil {
+			err = by.b.RecvActOne(act1)
+		}
+		var act2 [ActTwoSize]byte
+		if err == nil {
+			act2, err = by.b.GenActTwo()
+		}
+		if err == nil {
+			err = by.a.RecvActTwo(act2)
+		}
+		var act3 [ActThreeSize]byte
+		if err == nil {
+			act3, err = by.a.GenActThree()
+		}
+		if err == nil {
+			err = by.b.RecvActThree(act3)
+		}
+		if err != nil {
+			by.dead = true
+			s.viol("handshake_completes", "bystander", fmt.Sprintf("handshake of the second connection failed: %v", err))
+		}
+	}
+	by := s.by
+	if by.dead {
+		return
+	}
+	// one or two small messages, each written, flushed and read back
+	for k := 1 + by.r.Intn(2); k > 0; k-- {
+		from, to := by.a, by.b
+		if by.r.Bool() {
+			from, to = by.b, by.a
+		}
+		p := by.r.Bytes(by.r.Intn(48))
+		by.wire.Reset()
+		if err := from.WriteMessage(p); err != nil {
+			by.dead = true
+			s.viol("stream_identity", "bystander|write-message", fmt.Sprintf("WriteMessage on the second connection failed (%s): %v", where, err))
+			return
+		}
+		if _, err := from.Flush(&by.wire); err != nil {
+			by.dead = true
+			s.viol("stream_identity", "bystander|flush", fmt.Sprintf("Flush on the second connection failed (%s): %v", where, err))
+			return
+		}
+		got, err := to.ReadMessage(&by.wire)
+		s.vc.Count("bystander_messages", 1)
+		s.vc.Count("delivery_evals", 1)
+		if err != nil || !bytes.Equal(got, p) {
+			by.dead = true
+			s.viol("delivery", "bystander", fmt.Sprintf(
+				"message %d of the second connection (%d bytes, sent %s) was read back as err=%v, equal=%v", by.n, len(p), where, err, bytes.Equal(got, p)))
+			return
+		}
+		by.n++
+	}
 }
 
 func (s *verifC11S) viol(oracle, key, detail string) {
@@ -663,6 +743,17 @@ func (s *verifC11S) send(d *verifC11Dir, p []byte, mon *verifC11NonceMon) (wire 
 			if !(errors.As(err, &ne) && ne.Timeout()) {
 				s.viol("stream_identity", d.name+"|flush", fmt.Sprintf("Flush failed: %v", err))
 				return nil, false
+			}
+			// The write timed out with part of this message on the
+			// wire: another connection of the node is served before
+			// the flush is resumed.
+			if s.by == nil || s.by.r.Chance(1, 3) {
+				where := "body"
+				if len(d.from.nextHeaderSend) > 0 {
+					where = "header"
+					s.vc.Count("bystander_inside_partial_header", 1)
+				}
+				s.bystanderTraffic("inside a partially flushed " + where + " of " + d.name)
 			}
 		}
 	}
